@@ -30,14 +30,15 @@ ASSUMPTIONS = ['include cycles are generated only with a terminating guard (an u
                'system prefixes end with a slash; locations are compared after dot-segment / normpath normalisation']
 
 _URL = re.compile(r'^[a-z]+:')
-REL_DIRS = ['', 'lib/', 'lib/sub/', 'other/', 'lib/sub/deep/']
-ABS_DIRS = ['/abs/', '/abs/d/']
-URL_DIRS = ['http://h/base/', 'http://h/base/x/', 'http://h/other/', 'https://k/', 'file:/srv/shared/', 'vfs:/pkg/']      # (a URL is a scheme and a colon - no // needed)
+_LONG = 'releases/2026-10-03T08-15-00Z/static/scripts/application/components/forms/validation/rules/generated/tables/'      # (locations of 120-160 characters)
+REL_DIRS = ['', 'lib/', 'lib/sub/', 'other/', 'lib/sub/deep/', 'lib/' + _LONG]
+ABS_DIRS = ['/abs/', '/abs/d/', '/srv/www/customer-portal/' + _LONG]
+URL_DIRS = ['http://h/base/', 'http://h/base/x/', 'http://h/other/', 'https://k/', 'file:/srv/shared/', 'vfs:/pkg/', 'http://h/base/' + _LONG]      # (a URL is a scheme and a colon - no // needed)
 SYS_PREFIXES = ['sys/', 'http://h/sys/', '/opt/sys/', 'lib/sys/', None, '']       # ('' is a configured prefix too: the current directory)
 
 
 def normloc(u):
-    m = re.match(r'^([a-z]+://[^/]+)(/.*)$', u)
+    m = re.match(r'^([A-Za-z][A-Za-z0-9+.-]*://[^/]+)(/.*)$', u)        # (scheme://authority is kept as written, whatever the scheme looks like)
     if m:
         return m.group(1) + posixpath.normpath(m.group(2))
     return posixpath.normpath(u)
@@ -234,6 +235,15 @@ def gen_world(rnd, size):
     root_kind = rnd.choice(['rel', 'rel', 'abs', 'url'])
     root = w.new_file(min(3, size), root_kind)
     inline = kind_of(root) == 'rel' and posixpath.dirname(root) == '' and rnd.random() < 0.5
+    if kind_of(root) == 'rel' and not inline and rnd.random() < 0.25:
+        # the whole relative tree lives below a location that the URL test (lower-case letters and a colon) does not recognise: a scheme with a digit or in
+        # capitals. Such a base is handled like a path - and must come out of the resolution exactly as it went in (the double slash included)
+        prefix = rnd.choice(['s3://bucket/', 'HTTPS://Host.local/', 'h2://node-1/app/', 'S3://b/'])
+        w.files = {normloc(prefix + loc) if kind_of(loc) == 'rel' else loc: v for loc, v in w.files.items()}
+        root = prefix + root
+        if w.sys is not None and kind_of(w.sys) == 'rel':
+            w.sys = prefix + w.sys
+        w.classes.add('base-with-unrecognised-scheme')
     w.classes.add('root-inline' if inline else 'root-' + kind_of(root))
     return w, root, inline, rnd.choice(['none', 'none', 'raise', 'raise', 'nofetch'])
 
